@@ -8,9 +8,10 @@ RULES = {
     'C07.R1': 'operator agreement: every impl Trt<R> for L involving AffTree reaches only the same trait\'s AffFunc operator (forwarding impls, unary closures, schema update_terminal)',
     'C07.R2': 'operand order: left operand first through forwarding, composition (operand tree = rhs, rewritten tree = self; context ∘ original) and the mixed affine forms (enforced for Sub/Div, free for the commutative Add/Mul)',
     'C07.R3': 'decisions are copied unchanged by the four arithmetic schemas; unary operators touch every terminal and only terminals',
+    'C07.R5': 'definedness under on-the-fly pruning (shared with C03): the composition removes a grafted branch only on a false explore(), never the last branch of a decision, and is_edge_feasible says false only on an Infeasible answer',
     'C07.R4': 'AffFunc operators are element-wise on both fields with the impl\'s own operator, left operand first; Neg negates both fields',
 }
-FLOORS = {'C07.R1': 33, 'C07.R3': 6, 'C07.R4': 17, 'C07.R2': 4}
+FLOORS = {'C07.R1': 33, 'C07.R3': 6, 'C07.R4': 17, 'C07.R2': 4, 'C07.R5': 6}
 EXPLANATION = ('Sibling agreement over 4 operators x 8 ownership forms (+Neg) and the element-wise kernels; with C02.R1 (graft structure) the result is defined exactly '
                'when both operands are and its terminal is context.op(original), i.e. left.op(right).')
 DOES_NOT_DECIDE = 'nothing value-level beyond exact arithmetic; pruning on the fly is covered by C03'
@@ -172,6 +173,15 @@ def run(ctx):
         rets = [x for _, x in R.return_expr()]
         ok = len(c) == 1 and c[0][1][0] == ('param', 'self') and c[0][1][1] == ('param', 'op') and rets == [('param', 'self')]
         (ctx.ok if ok else ctx.bad)('C07.R3', 'AffTree::unary_op_into', 'self.unary_op_inplace(op); self' if ok else 'unary_op_into does not apply op to self', u.span)
+    # ---- R5: the operators prune on the fly: the removal sites of the composition are part of C07's definedness clause
+    from ..core import Ctx
+    sub = Ctx(ctx.facts, ctx.tier, ctx.prop)
+    prune.check_removals(sub, 'C07.R5')
+    prune.check_childless(sub, 'C07.R5')
+    prune.check_edge_feasible_table(sub, 'C07.R5')
+    for i in sub.insts:
+        if i.site.startswith('AffTree::generic_composition_inplace#') or i.site.startswith('AffTree::is_edge_feasible#'):
+            ctx.insts.append(i)
     # ---- R2: composition passes (operand node, rewritten tree\'s terminal) to the schema
     g = ctx.body('C07.R2', 'AffTree::generic_composition_inplace')
     if g is not None:
